@@ -82,6 +82,9 @@ def parse(repo, relpath: str) -> CyModule:
             f = conv.funcdef(st)
             if f is not None:
                 mod.functions[f.name] = f
+    known = getattr(repo, "known_functions", None)
+    if known is not None:
+        _look_through_helpers(mod, relpath, known)
     for c in mod.classes:
         for f in c.methods.values():
             _set_parents(f)
@@ -89,6 +92,31 @@ def parse(repo, relpath: str) -> CyModule:
         _set_parents(f)
     _parsed[key] = mod
     return mod
+
+
+def _look_through_helpers(mod: "CyModule", relpath: str, known):
+    """E-INL on the converted tree: calls of cdef/def helpers that are not in the
+    frozen list of known functions are expanded in place (engine/inline.py)"""
+    from .inline import expand_unknown_helpers, renumber
+
+    body: List[ast.stmt] = list(mod.functions.values())
+    cdefs = []
+    for c in mod.classes:
+        cd = ast.ClassDef(name=c.name, bases=[ast.Name(id=c.base, ctx=ast.Load())] if c.base else [], keywords=[], body=list(c.methods.values()) or [ast.Pass()], decorator_list=[])
+        cd.lineno = c.line
+        cdefs.append((c, cd))
+        body.append(cd)
+    synth = ast.Module(body=body, type_ignores=[])
+    try:
+        _, exp = expand_unknown_helpers(synth, relpath, known)
+    except Exception:
+        return
+    if not exp:
+        return
+    renumber(synth)
+    mod.functions = {f.name: f for f in synth.body if isinstance(f, ast.FunctionDef)}
+    for c, cd in cdefs:
+        c.methods = {f.name: f for f in cd.body if isinstance(f, ast.FunctionDef)}
 
 
 def _set_parents(tree):
